@@ -356,8 +356,9 @@ Inductive cop :=
 | CCreate (name : string)                  (* Provisioner.Create -> Cluster.UpdateNodeClaim, no provider id yet *)
 | CUpdate (name : string) (pid : string)   (* Cluster.UpdateNodeClaim (informer): launched when pid <> "" *)
 | CDelete (name : string)                  (* Cluster.DeleteNodeClaim *)
-| CReconcile (created : list string).      (* Provisioner.Reconcile with a triggered batch; [created]: the NodeClaims the
+| CReconcile (created : list string)       (* Provisioner.Reconcile with a triggered batch; [created]: the NodeClaims the
                                               pass creates when it runs (Schedule + CreateNodeClaims) *)
+| CReconcileIdle.                          (* Provisioner.Reconcile when nothing triggered the batcher: returns at once *)
 
 Fixpoint cset (k v : string) (m : cstate) : cstate :=
   match m with
@@ -368,6 +369,13 @@ Definition cdel (k : string) (m : cstate) : cstate := filter (fun kv => negb (St
 
 (* Cluster.Synced once hasSynced is set: no tracked NodeClaim without a provider id *)
 Definition synced (m : cstate) : bool := forallb (fun kv => negb (String.eqb (snd kv) "")) m.
+
+(* Cluster.Synced BEFORE the first successful sync (a restarted controller): the API lists must succeed, no tracked
+   NodeClaim may lack a provider id, and every NodeClaim / Node of the API must already be tracked *)
+Definition synced_first (m : cstate) (tracked_nodes api_claims api_nodes : list string) (list_fails : bool) : bool :=
+  negb list_fails && synced m &&
+  forallb (fun n => existsb (fun kv => String.eqb n (fst kv)) m) api_claims &&
+  forallb (fun n => mem n tracked_nodes) api_nodes.
 
 (* The number of scheduling passes that ran is counted. *)
 Record pstate := mkP { p_map : cstate; p_passes : nat }.
@@ -381,6 +389,7 @@ Definition cstep (s : pstate) (o : cop) : pstate :=
       if synced (p_map s)
       then mkP (fold_left (fun m n => cset n "" m) created (p_map s)) (S (p_passes s))
       else s
+  | CReconcileIdle => s
   end.
 
 Definition crun (s : pstate) (ops : list cop) : pstate := fold_left cstep ops s.
